@@ -199,10 +199,18 @@ package file
 //@ extern (*bufio.Writer).Flush
 //@   effect $Flushed := err == nil
 
-//@ func writeQ4
-//@   property C07
-//@   trusted
+// (call-site view of writeQ4: nil means every share of the fourth quadrant went to the writer. Body view: the
+// share written is the cell just taken from the square, handed to the writer as it is, and nil is returned only
+// after the last row. That the cell taken is (i+half, j+half) is NOT an obligation: the unsigned index arithmetic
+// needs loop invariants over the hidden counters of the two rotated range loops that did not go through.)
+//@ extern github.com/celestiaorg/celestia-node/store/file.writeQ4
 //@   effect $AllWritten := err == nil
+//@ func writeQ4
+//@   property C07 C05
+//@   noframe
+//@   callpre Writer).Write: $arg0 == w && $arg1 == shr
+//@   callpre ).Width: $arg0 == eds
+//@   checks err == nil ==> rangeiter >= half
 
 // (call-site view of writeODS: nil means every share up to the first tail-padding share went to the writer.
 // Body view: cells of the original quadrant are taken row by row, column by column - cell (i, j) in its
@@ -234,10 +242,15 @@ package file
 //@   ensures !$FdOpen
 //@   ensures err == nil ==> $Flushed
 
+// (call-site view of writeHeader; body view: the version byte, then this header's own encoding, both to the
+// writer it was given, and a failed version write ends the function with an error)
+//@ extern github.com/celestiaorg/celestia-node/store/file.writeHeader
+//@   effect $HdrWritten := err == nil
 //@ func writeHeader
 //@   property C07 C05
-//@   trusted
-//@   effect $HdrWritten := err == nil
+//@   noframe
+//@   callpre binary.Write: $arg0 == w && $arg2 == iface(headerVersionV0)
+//@   callpre headerV0).WriteTo: $arg0 == h && $arg1 == w
 
 // (call-site view of writeAxisRoots; body view: all row roots in order, then all column roots in order)
 //@ extern github.com/celestiaorg/celestia-node/store/file.writeAxisRoots
